@@ -789,6 +789,51 @@ inductive Merge {α : Type} : List (List α) → List α → Prop
   | step (pre post : List (List α)) (x : α) (l out : List α) :
       Merge (pre ++ l :: post) out → Merge (pre ++ (x :: l) :: post) (x :: out)
 
+/-! ## Phase 6: which execution configuration a (re-)run uses
+
+`Experiment` keeps three settings (`processes`, `maxchunksperchild`, `maxtasksperchunk`).  Each can come from three places: an
+earlier `.config(...)` call (stored in `self._x`), the argument of `run(...)`, and the PROCESS-GLOBAL default
+`CobaContext.experiment.x`.  `run` first calls `self.config(processes, maxchunksperchild, maxtasksperchunk)` with ITS OWN arguments
+(`config` overwrites all three fields, also with `None` — so what an earlier `.config()` call stored is lost), then reads the
+properties `self._x if self._x is not None else CobaContext.experiment.x`. -/
+
+/-- one setting: what an earlier `.config()` left, the argument of `run`, the process-global default -/
+structure CfgRoute where
+  stored : Option Nat
+  arg    : Option Nat
+  ctx    : Nat
+deriving Repr, DecidableEq
+
+/-- `Experiment.config`: `self._x = x` — the field is overwritten, also by `None` -/
+def configCall (_old new : Option Nat) : Option Nat := new
+
+/-- the property: `self._x if self._x is not None else CobaContext.experiment.x` -/
+def cfgProp (stored : Option Nat) (ctx : Nat) : Nat :=
+  match stored with
+  | some v => v
+  | none => ctx
+
+/-- the value `run` works with: `self.config(arg…)`, then the property -/
+def runCfg (r : CfgRoute) : Nat := cfgProp (configCall r.stored r.arg) r.ctx
+
+/-- `is_multiproc = mp > 1 or mc != 0` -/
+def isMultiproc (mp mc : Nat) : Bool := decide (1 < mp) || !(mc == 0)
+
+/-- the three settings of one run -/
+structure RunConfig where
+  mp : CfgRoute
+  mc : CfgRoute
+  mt : CfgRoute
+deriving Repr, DecidableEq
+
+/-- `mp,mc,mt = self.processes,self.maxchunksperchild,self.maxtasksperchunk` after `self.config(...)` -/
+def RunConfig.eff (c : RunConfig) : Nat × Nat × Nat := (runCfg c.mp, runCfg c.mc, runCfg c.mt)
+
+/-- the order in which a SINGLE-process run under configuration `c` hands the tasks on: `ChunkTasks(mt)` with the EFFECTIVE
+`maxtasksperchunk` (0 = `None`: `max_tasks or None`), each chunk through `ProcessTasks` -/
+def runOrderCfg (chunkOf : Nat → Option Nat) (c : RunConfig) (tasks : List Task) : List Task :=
+  runOrder chunkOf (runCfg c.mt) tasks
+
 /-! ### the concrete codec of the driver: a table of (record, text) pairs -/
 
 def tableEnc (tbl : List (Rec × Bytes)) (r : Rec) : Bytes :=
